@@ -2,6 +2,7 @@ import TrackVerif.GPMF.Lemmas
 import TrackVerif.GPMF.Spec
 import TrackVerif.GPMF.NumRat
 import TrackVerif.Generated.GPMF
+import TrackVerif.GPMF.WalkLemmas
 /-
   C06 — GPMF reader reproduces the encoded key-length-value tree exactly.
   Property theorems only.
@@ -214,5 +215,43 @@ theorem value_count_and_bits (h : Header) (raw : Bytes) (row : TypeRow)
     have hw0 : row.width ≠ 0 := by omega
     simp [h1, hrow, e1, e2, e3, e4, e5, e6, hw0, hany, List.map_map, Function.comp_def]
   · simp [chunks_count]
+
+/-! ### The tree walker (walker.go) -/
+section Walker
+open GPMF.Walk
+
+/-- a visiting function that never skips and never fails sees every element of the forest exactly
+    once (the list of calls IS the document-order list, whose length is the number of elements) -/
+theorem walk_visits_every_element_in_document_order {β : Type} (ts : List (Rose β)) :
+    walkL (fun _ => Act.cont) ts = (preL ts, false) ∧ (preL ts).length = sizeL ts := by
+  refine ⟨?_, preL_length ts⟩
+  rw [walkL_never_stop _ (by intro b; simp) ts, prunedL_cont]
+
+/-- pruning is exact: without failures the calls made are, in document order, precisely the
+    elements none of whose proper ancestors was answered with ErrSkip — a skipped element itself
+    is visited, its whole sub-tree is not, and nothing else is lost -/
+theorem walk_prunes_exactly_the_skipped_subtrees {β : Type} (fn : β → Act) (h : ∀ b, fn b ≠ .stop)
+    (ts : List (Rose β)) :
+    walkL fn ts = (((preAL [] ts).filter (keep fn)).map (·.1), false) := by
+  rw [walkL_never_stop fn h ts, prunedL_filter fn [] (by simp) ts]
+
+/-- a failing visit ends the walk there: the calls made are a prefix of the calls of the walk in
+    which that failure had been a skip, the failing element is the last one called, and a walk
+    that was not aborted made all of them -/
+theorem walk_abort_is_a_prefix {β : Type} (fn : β → Act) (ts : List (Rose β)) :
+    (walkL fn ts).1 <+: ((preAL [] ts).filter (keep (unstop fn))).map (·.1) ∧
+    ((walkL fn ts).2 = true → ∃ x, (walkL fn ts).1.getLast? = some x ∧ fn x = .stop) ∧
+    ((walkL fn ts).2 = false → (walkL fn ts).1 = ((preAL [] ts).filter (keep (unstop fn))).map (·.1)) := by
+  have hp := prunedL_filter (unstop fn) [] (by simp) ts
+  refine ⟨?_, walkL_abort fn ts, ?_⟩
+  · rw [← hp]; exact walkL_prefix fn ts
+  · intro h; rw [← hp]; exact walkL_complete fn ts h
+
+/-- non-vacuity: a three-level forest with one skipped and one failing element -/
+example : walkL (fun n => if n = 2 then Act.skip else if n = 6 then Act.stop else Act.cont)
+    [.node 1 [.node 2 [.node 3 []], .node 4 []], .node 5 [.node 6 [.node 7 []]], .node 8 []]
+    = ([1, 2, 4, 5, 6], true) := by decide
+
+end Walker
 
 end TrackVerif.C06
